@@ -199,6 +199,8 @@ def run(repo, rep, tier):
     extrema_tables(repo, rep)
     count_multiplicity(repo, rep)
     index_formula_rule(repo, rep)
+    batch_average_rule(repo, rep, prims)
+    count_sees_length_rule(repo, rep)
     coverage_guard(repo, prims, rep=rep)
     positive_control(repo, rep, r3)
     merge_formulas(repo, rep, r5, models)
@@ -528,3 +530,172 @@ def index_formula_rule(repo, rep):
                 rep.finding("R3.8", ve, st, f"{cname}._numpy takes the floor of `{t}` but the scalar index method {cname}.bin takes the floor of "
                             f"`{' / '.join(sorted(s_txt))}`: the two round differently, so a value within an ulp of a bin edge is put into one "
                             f"bin by fill and into the neighbouring bin by fill.numpy", stmt=f"{cname}: vector index formula {t}")
+
+
+# ---------------------------------------------------------------------------------------------- R3.9 weighted averages of a batch
+def batch_average_rule(repo, rep, prims):
+    """numpy.average(x, weights=w) raises ZeroDivisionError when w sums to zero - a batch in which no row has positive weight
+    (an empty array, or everything rejected by an enclosing Select).  The per-row fill of such rows does nothing, so the call
+    must sit under a test that implies `w.sum() > 0`.  Decided with linear forms over the atoms A (the node's entries on entry)
+    and B (the weight of the batch): a guard `L > R` counts when L - R is a positive multiple of B."""
+    r9 = rep.rule("R3.9", "numpy.average over a batch is evaluated only under a guard that implies a positive batch weight", floor=2)
+    for c in prims:
+        f = repo.own_method(c, "_numpy")
+        calls = [n for n in ast.walk(f.node) if isinstance(n, ast.Call) and ast.unparse(n.func) in ("numpy.average", "np.average")]
+        if not calls:
+            continue
+        sn = f.params[0]
+        version = {}
+
+        def arr_atom(name):
+            return f"B:{name}#{version.get(name, 0)}"
+
+        def form(e, env):
+            """linear form {atom: coef} (with '' for the constant) or None"""
+            if isinstance(e, ast.Constant) and isinstance(e.value, (int, float)) and not isinstance(e.value, bool):
+                return {"": float(e.value)}
+            if isinstance(e, (ast.Name, ast.Attribute)):
+                k = ast.unparse(e)
+                if k in env:
+                    return env[k]
+                return {f"sym:{k}": 1.0}
+            if isinstance(e, ast.Call):
+                fn = ast.unparse(e.func)
+                if fn == "float" and len(e.args) == 1:
+                    return form(e.args[0], env)
+                if isinstance(e.func, ast.Attribute) and e.func.attr == "sum" and isinstance(e.func.value, ast.Name) and not e.args:
+                    return {arr_atom(e.func.value.id): 1.0}
+                if fn in ("numpy.sum", "np.sum") and len(e.args) == 1 and isinstance(e.args[0], ast.Name):
+                    return {arr_atom(e.args[0].id): 1.0}
+                return None
+            if isinstance(e, ast.BinOp) and isinstance(e.op, (ast.Add, ast.Sub)):
+                a, b = form(e.left, env), form(e.right, env)
+                if a is None or b is None:
+                    return None
+                out = dict(a)
+                sg = 1.0 if isinstance(e.op, ast.Add) else -1.0
+                for k, v in b.items():
+                    out[k] = out.get(k, 0.0) + sg * v
+                return {k: v for k, v in out.items() if v != 0.0}
+            return None
+
+        results = []
+
+        def implies_positive(test, env, atom):
+            conj = test.values if isinstance(test, ast.BoolOp) and isinstance(test.op, ast.And) else [test]
+            for t in conj:
+                if isinstance(t, ast.Compare) and len(t.ops) == 1 and isinstance(t.ops[0], (ast.Gt, ast.Lt, ast.NotEq)):
+                    l, r = form(t.left, env), form(t.comparators[0], env)
+                    if l is None or r is None:
+                        continue
+                    d = dict(l)
+                    for k, v in r.items():
+                        d[k] = d.get(k, 0.0) - v
+                    d = {k: v for k, v in d.items() if v != 0.0}
+                    if set(d) == {atom}:
+                        coef = d[atom]
+                        if (isinstance(t.ops[0], ast.Gt) and coef > 0) or (isinstance(t.ops[0], ast.Lt) and coef < 0) or isinstance(t.ops[0], ast.NotEq):
+                            return True
+                # len(w) > 0 / w.size > 0 for the selected weights (all positive): non-empty means positive total
+                if isinstance(t, ast.Compare) and len(t.ops) == 1 and isinstance(t.ops[0], ast.Gt) and isinstance(t.comparators[0], ast.Constant) \
+                        and t.comparators[0].value == 0:
+                    txt = ast.unparse(t.left).replace(" ", "")
+                    nm = atom.split(":")[1].split("#")[0]
+                    if txt in (f"len({nm})", f"{nm}.size", f"{nm}.shape[0]"):
+                        return True
+            return False
+
+        def block(stmts, env, guards):
+            for st in stmts:
+                for n in ast.walk(st) if not isinstance(st, (ast.If, ast.For, ast.While, ast.With, ast.Try)) else []:
+                    if n in calls:
+                        w = next((kw.value for kw in n.keywords if kw.arg == "weights"), n.args[1] if len(n.args) > 1 else None)
+                        if isinstance(w, ast.Name):
+                            atom = arr_atom(w.id)
+                            ok = any(implies_positive(t, genv, atom) for t, genv in guards)
+                        else:
+                            ok = False
+                        results.append((n, ok, [ast.unparse(t)[:50] for t, _ in guards]))
+                if isinstance(st, ast.Assign) and len(st.targets) == 1:
+                    t = st.targets[0]
+                    if isinstance(t, (ast.Name, ast.Attribute)):
+                        fm = form(st.value, env)
+                        k = ast.unparse(t)
+                        if isinstance(t, ast.Name):
+                            version[t.id] = version.get(t.id, 0) + 1
+                        if fm is not None:
+                            env[k] = fm
+                        else:
+                            env.pop(k, None)
+                    elif isinstance(t, (ast.Tuple, ast.List)) and isinstance(st.value, (ast.Tuple, ast.List)) and len(t.elts) == len(st.value.elts):
+                        fms = [form(v, env) for v in st.value.elts]
+                        for tt, fm in zip(t.elts, fms):
+                            if isinstance(tt, (ast.Name, ast.Attribute)):
+                                if isinstance(tt, ast.Name):
+                                    version[tt.id] = version.get(tt.id, 0) + 1
+                                if fm is not None:
+                                    env[ast.unparse(tt)] = fm
+                                else:
+                                    env.pop(ast.unparse(tt), None)
+                elif isinstance(st, ast.AugAssign) and isinstance(st.target, (ast.Name, ast.Attribute)) and isinstance(st.op, (ast.Add, ast.Sub)):
+                    k = ast.unparse(st.target)
+                    fm = form(ast.BinOp(left=st.target, op=st.op, right=st.value), env)
+                    if fm is not None:
+                        env[k] = fm
+                    else:
+                        env.pop(k, None)
+                elif isinstance(st, ast.If):
+                    # assignments inside a branch that is not taken on every path make the value unknown afterwards
+                    before = dict(env)
+                    e1 = dict(env)
+                    block(st.body, e1, guards + [(st.test, dict(env))])
+                    e2 = dict(env)
+                    block(st.orelse, e2, guards)
+                    for k in set(e1) | set(e2):
+                        if e1.get(k) != e2.get(k):
+                            # the generic path (non-empty state) keeps the value from before when only the empty-state branch resets it
+                            if k in before and (e1.get(k) == before[k] or e2.get(k) == before[k]) and k != f"{sn}.entries":
+                                env[k] = before[k]
+                            else:
+                                env.pop(k, None)
+                        else:
+                            env[k] = e1[k]
+                elif isinstance(st, (ast.For, ast.While, ast.With, ast.Try)):
+                    for x in ast.walk(st):
+                        if isinstance(x, ast.Name) and isinstance(x.ctx, ast.Store):
+                            env.pop(x.id, None)
+        block(f.node.body, {f"{sn}.entries": {"A": 1.0}}, [])
+        for n, ok, guards in results:
+            r9.ob(ok, f"{f.qualname}: `{ast.unparse(n)[:50]}` under {guards}")
+            if not ok:
+                rep.finding("R3.9", f, n, f"`{ast.unparse(n)[:70]}` is reached whenever {guards or ['nothing']} holds, which does not imply that the "
+                            f"batch has positive weight: for a batch in which no row has positive weight (an empty array, or every row rejected "
+                            f"by an enclosing Select) on a non-empty node, numpy.average raises ZeroDivisionError('Weights sum to zero'), while "
+                            f"the per-row fill of the same rows changes nothing", stmt=f"average without a positive-batch guard")
+
+
+# ---------------------------------------------------------------------------------------------- R3.10 Counts and the batch length
+def count_sees_length_rule(repo, rep):
+    """A Count filled through _numpy with a scalar weight adds weight x shape[0]; when shape[0] is still None (no sub-aggregator
+    has evaluated a quantity yet) it adds the weight ONCE - right only when the caller passes a pre-summed amount for one key
+    (the sparse fast paths), wrong when the caller's own batch weight is handed on.  Decided on the abstract interpreter: every
+    container's _numpy is run with a Count as first child, other aggregators as its siblings, a scalar weight and an unknown
+    batch length; no path may hand the batch on to the Count while the shared shape cell is still None."""
+    r10 = rep.rule("R3.10", "a Count child is handed the batch only once the batch length is known (scalar weight, Count first among its siblings)", floor=4)
+    for cname in CONTAINERS:
+        for cfg in configs(repo, cname, 2):
+            label, q = cfg.regions[len(cfg.regions) // 2]
+            try:
+                paths = run_numpy(repo, cfg, label, q, "pos", "scalar", "mixed", shape_known=False)
+            except Unsup as e:
+                raise AnalysisError(f"{cname}._numpy (Count first, scalar weight, unknown length): {e}")
+            npf = repo.own_method(cfg.cls, "_numpy")
+            bad = [(p, e) for p in paths if p.outcome != "raise" for e in p.effects if e[0] == "count-length" and e[2] is False]
+            r10.ob(not bad, f"{cfg.desc}: Count children see a known batch length")
+            if bad:
+                p, e = bad[0]
+                rep.finding("R3.10", npf, npf.node, f"{cfg.desc}, scalar weight, Count as first child: the batch is handed to `{e[1]}` while shape[0] is still "
+                            f"None (no sibling has evaluated its quantity yet), so that Count adds the weight once instead of once per row: "
+                            f"{cname}(Count(), Sum(q)).fill.numpy(data) leaves the Count at 1.0 whatever the length of the batch, while the same "
+                            f"tree with the children in the other order is right", stmt=f"{cname}: Count filled before the batch length is known")
+            break
